@@ -336,6 +336,8 @@ gen(Src& s, int size)
       if (type >= 5 && (have_error || i < n / 2))
         type = 0; // at most one error statement, in the second half (so that earlier statements are checked too)
       int key = int(s.range(0, NKEYS - 1));
+      if (!c17::no_exclude() && std::string(KEYS[key].name) == "v ratio a:b")
+        key = 17; // known finding F3: steer away from the vectorised key with ':' (still filtered in check)
       if (type == 5 || type == 6)
         while (!KEYS[key].vectorised)
           key = int(s.range(0, NKEYS - 1));
